@@ -622,11 +622,11 @@ func (g *gen) build(k knobs) string {
 	// ---- seeded violations on signals / messages
 	for i := 0; i < k.boolNoPrefix; i++ {
 		_, s := b.addSig()
-		s.size, s.name = 1, "Flag"+g.camel()
+		s.size, s.name, s.unit = 1, "Flag"+g.camel(), ""
 	}
 	for i := 0; i < k.boolNoPrefixVal; i++ {
 		m, s := b.addSig()
-		s.size, s.name = 1, "Flag"+g.camel()
+		s.size, s.name, s.unit = 1, "Flag"+g.camel(), ""
 		b.valFor = append(b.valFor, fmt.Sprintf("%d %s", m.id, s.name))
 	}
 	for i := 0; i < k.badIntSig; i++ {
@@ -694,7 +694,7 @@ func (g *gen) build(k knobs) string {
 	}
 	for i := 0; i < k.reserved; i++ {
 		_, s := b.addSig()
-		s.name = g.choose("Reserved", "Reserved"+g.camel(), "Reserved1")
+		s.name, s.unit = g.choose("Reserved", "Reserved"+g.camel(), "Reserved1"), g.choose("", "V")
 		if s.size == 1 {
 			s.size = 2
 		}
@@ -705,7 +705,7 @@ func (g *gen) build(k knobs) string {
 	}
 	for i := 0; i < k.badSigName; i++ {
 		_, s := b.addSig()
-		s.name = g.nonCamel()
+		s.name, s.unit = g.nonCamel(), g.choose("", "A")
 		if s.size == 1 {
 			s.size = 3
 		}
@@ -1387,7 +1387,7 @@ func main() {
 	}
 	emit := func(category, text string, perturb func(*dbc.File)) {
 		var c *cliRunner
-		if cli != nil && (n%cliEvery == 0 || category == "degenerate" || category == "clean") {
+		if cli != nil && (n%cliEvery == 0 || category == "degenerate" || category == "clean" || strings.HasPrefix(category, "rule:")) {
 			c = cli
 		}
 		checkFile(w, n, category, []byte(text), perturb, c)
